@@ -56,6 +56,8 @@ type fnCtx struct {
 	deferArgs    [][]Val
 	propsAll     []string
 	closures     []*ssa.MakeClosure
+	exceptKeeps  [][]string      // heaps kept by "heapexcept" frames of the calls of the loop being analysed
+	loopKeep     map[string]bool // heaps a loop provably leaves alone although it calls functions with wide frames
 	implSyms     map[string]types.Type
 	pureDone     map[string]bool
 	inQuant      int
@@ -690,6 +692,34 @@ func (fc *fnCtx) writeSet(blocks map[*ssa.BasicBlock]bool) (names map[string]boo
 	names = map[string]bool{}
 	fc.oldWrites = map[string]bool{}
 	fc.locWrites = map[string][]string{}
+	fc.exceptKeeps = nil
+	fc.loopKeep = nil
+	defer func() {
+		// calls whose frame is "everything except K": the loop may write everything except the heaps every such
+		// call keeps (and that nothing else in the loop writes)
+		if len(fc.exceptKeeps) > 0 && !all {
+			keep := map[string]bool{}
+			for _, h := range fc.exceptKeeps[0] {
+				keep[h] = true
+			}
+			for _, ks := range fc.exceptKeeps[1:] {
+				in := map[string]bool{}
+				for _, h := range ks {
+					in[h] = true
+				}
+				for h := range keep {
+					if !in[h] {
+						delete(keep, h)
+					}
+				}
+			}
+			for h := range names {
+				delete(keep, h)
+			}
+			fc.loopKeep = keep
+			all = true
+		}
+	}()
 	for b := range blocks {
 		for _, ins := range b.Instrs {
 			switch ins := ins.(type) {
@@ -925,8 +955,19 @@ func (fc *fnCtx) loopHeader(li *loopInfo, st *State) {
 	names, all := fc.writeSet(li.body)
 	fc.curLoopState = nil
 	if all {
+		kept := map[string]string{}
+		for h := range fc.loopKeep {
+			kept[h] = fc.H(st, h)
+		}
 		fc.havocAll(st)
-		fc.note("loop %d: body may write any heap (abstract call); whole heap havoc'd at header", li.ord)
+		for h, v := range kept {
+			st.heap[h] = v
+		}
+		if len(kept) > 0 {
+			fc.note("loop %d: body may write any heap except %v (callee frames); the rest is havoc'd at header", li.ord, sortedKeys(fc.loopKeep))
+		} else {
+			fc.note("loop %d: body may write any heap (abstract call); whole heap havoc'd at header", li.ord)
+		}
 	} else {
 		for _, n := range sortedKeys(names) {
 			before := fc.H(st, n)
